@@ -2387,9 +2387,10 @@ class Region(_IRNode):
                 prev_block = next_block
 
         except StopIteration:
-            # Repair last block
-            self._last_block = prev_block
             return
+        finally:
+            # Repair last block, also when one of the blocks is rejected
+            self._last_block = prev_block
 
     def insert_block_before(
         self, block: Block | Iterable[Block], target: Block
@@ -2437,10 +2438,11 @@ class Region(_IRNode):
                 prev_block = next_block
 
         except StopIteration:
-            # Repair broken link
+            return
+        finally:
+            # Repair broken link, also when one of the blocks is rejected
             prev_block._next_block = target  # pyright: ignore[reportPrivateUsage]
             target._prev_block = prev_block  # pyright: ignore[reportPrivateUsage]
-            return
 
     def insert_block_after(self, block: Block | Iterable[Block], target: Block) -> None:
         """
